@@ -83,11 +83,14 @@ impl<T: Qcow2IoOps> Qcow2Dev<T> {
         let cls_size = info.cluster_size();
         let l1_range = {
             let h = self.header.read().await;
+            // the table on disk may have more entries than the virtual size
+            // needs, and all of its clusters are in use
             let l1_size = self
                 .l1table
                 .read()
                 .await
                 .byte_size()
+                .max(h.l1_table_entries() * std::mem::size_of::<u64>())
                 .align_up(cls_size)
                 .unwrap();
 
@@ -114,7 +117,13 @@ impl<T: Qcow2IoOps> Qcow2Dev<T> {
             let mapping = self.get_mapping(start).await?;
 
             match mapping.source {
-                MappingSource::Zero | MappingSource::Unallocated | MappingSource::Backing => {}
+                MappingSource::Unallocated | MappingSource::Backing => {}
+                MappingSource::Zero => {
+                    // one zero cluster may keep its preallocation
+                    if let Some(off) = mapping.cluster_offset {
+                        Self::add_used_cluster_to_set(ranges, off >> self.info.cluster_bits());
+                    }
+                }
                 MappingSource::DataFile => {
                     if let Some(off) = mapping.cluster_offset {
                         allocated += 1;
